@@ -564,7 +564,7 @@ def root_index(snap, idx):
 REF_ARG_KEYS = ("t", "x", "y", "p", "d", "parent")
 # ops that must not change any pre-existing object at all
 OBSERVERS = ("clone", "export_leaf", "get_values", "hold_list", "validate", "doc_validate",
-             "validate_custom", "save", "load", "restart", "advance")
+             "validate_custom", "save", "load", "restart", "advance", "damage_file")
 
 
 def footprint(ctx):
